@@ -102,6 +102,9 @@ void xp_outcome(uint64_t h)
 	/* callers pass structured keys: finalize so that linear probing stays short */
 	h ^= h >> 33; h *= 0xff51afd7ed558ccdULL; h ^= h >> 33; h *= 0xc4ceb9fe1a85ec53ULL; h ^= h >> 33;
 	if (h == 0) h = 1;
+	/* the set saturates at 3/4 of its capacity (the count is then a lower bound): a full table would make every
+	 * further call scan all of it */
+	if (__atomic_load_n(&XS->noutcomes, __ATOMIC_RELAXED) >= (long)(XP_OUTCOMES / 4 * 3)) return;
 	size_t mask = XP_OUTCOMES - 1, i = (size_t)h & mask;
 	for (size_t probe = 0; probe < XP_OUTCOMES; probe++, i = (i + 1) & mask) {
 		uint64_t cur = __atomic_load_n(&XS->outcomes[i], __ATOMIC_ACQUIRE);
